@@ -878,7 +878,7 @@ def protocol_suite(ctx, n_quick=400, n_thorough=4000, gen_kw=None, salt=0):
     sscns = [scenario.gen(srng, n_min=4, n_max=5, groups_max=2, allow_time=True) for _ in range(3 if q else 12)]
     ctx.impl_model("JadeImpl simulation on random 4-5-job scenarios", sscns, maxb=5, maxuser=4,
                    simulate=f"num={120 if q else 4000}", max_replay=80 if q else 2000, timeout=1500)
-    kw = dict(n_min=2, n_max=6 if q else 9, groups_max=2, eager=0.04, onehost=0.2, nodist=0.12)
+    kw = dict(n_min=2, n_max=6 if q else 9, groups_max=2, eager=0.04, onehost=0.2, nodist=0.12, squeue_odd=0.15)
     kw.update(gen_kw or {})
     tasks = [("random_hpc", (s, kw)) for s in seeds(ctx, n_quick if q else n_thorough, salt)]
     ctx.judge(run_tasks(tasks), "random HPC submissions")
@@ -928,7 +928,7 @@ def histories_extra(ctx):
         # rounds that end with an error raised outside the status files (quota exceeded while writing a batch's files):
         # what the error path persists must still be consistent
         bl, ft = sweep_tasks(ctx, fault_bases(ctx.tier), ["failwrite"], ("submit-jobs", "try-submit-jobs"), fault_mode=True,
-                             locklibs=("never",), seeds_per_base=2 if q else 5, detail_re=r"(config_batch_\d+\.json|_batch_\d+\.sh)$")
+                             locklibs=("never",), seeds_per_base=10 if q else 40, detail_re=r"(config_batch_\d+\.json|_batch_\d+\.sh)$")
         ctx.judge(bl + run_tasks(ft), "rounds aborted by a failed write of a batch file")
 
 
